@@ -250,6 +250,20 @@ def run(prog, rep):
                 return "FILTER" if xx.text(leaf, br) == "filter_func(%s)" % t else None
             rep.check(known(gg, n, cl4, lambda a: a["FILTER"], ["FILTER"], with_node=True), "TRAV-4", "%s yields only under its filter" % fn.name, "ok",
                       "%s yields an element without filter_func(element) being known" % fn.name, where(fn, n.ast))
+            # ... and under nothing else that looks at the element: the traversal enumerates every element the caller's filter accepts
+            from ..astutil import atoms_of
+            others = []
+            for test, pol, br in gg.dominating_conditions(n):
+                if pol not in ("true", "false"):
+                    continue
+                for at, ap in atoms_of(xx.expand(test, br), pol == "true"):
+                    if at == "filter_func(%s)" % t:
+                        continue
+                    if t in at or (elem_attr is None and src_t in at):
+                        others.append(at if ap else "not (%s)" % at)
+            rep.check(not others, "TRAV-4", "%s drops an element only when its filter rejects it" % fn.name, "no other test of the element",
+                      "%s yields an element only if also %s: elements the caller's filter accepts are left out" % (fn.name, others), where(fn, n.ast),
+                      witness="a Property without values: itervalues(filter_func=lambda v: True) does not yield its empty list")
         esc = [y for y in walk_no_nested(fn.node) if isinstance(y, (ast.Break, ast.Return))]
         rep.check(not esc, "TRAV-4", "%s has no early exit" % fn.name, "ok", "%s stops early (%s)" % (fn.name, [type(y).__name__ for y in esc]), fn.where)
 
@@ -407,6 +421,7 @@ def run(prog, rep):
         rep.check(kws.get("siblings") == "False" and kws.get("parents") == "False", "FIND-2", "the recursion searches descendants only", str(kws),
                   "the recursive find_related call passes siblings=%s, parents=%s: the search leaves the requested relation" % (kws.get("siblings"), kws.get("parents")),
                   where(fr, c), witness="find_related(children=True, siblings=False, parents=False) returns the start section's sibling or itself")
+    parent_walk_rule(rep, fr, "FIND-4")
     # FIND-3: a found object is never tested for truthiness (an empty Section is falsy: BaseSection defines __len__)
     from ..astutil import truthiness_tests
     for fn in (fi, fr):
@@ -677,3 +692,41 @@ def exact_name_match(prog, rep, rule="PATH-2"):
     rep.check(good, rule, "_matches compares the name with the key as it is", str(cmps),
               "_matches compares %s: a name that differs from the key (e.g. by case) is accepted" % cmps, mt.where,
               witness="sibling Sections 'Probe' and 'probe': the path of the second resolves to the first")
+
+
+def parent_walk_rule(rep, fr, rule="FIND-4"):
+    """find_related: without `recursive` the parent walk looks at the direct parent only"""
+    from ..logic import branch_edge_entails
+    rep.rule(rule, "find_related(): in every loop that climbs the tree (its body re-binds a local to <that local>.parent) no path leads from the "
+                   "start of the body back to the loop test without crossing a branch edge that knows `recursive`: a search that is not "
+                   "recursive never looks at a second ancestor, whether or not the first one matched")
+    if "recursive" not in fr.params:
+        rep.fail(rule, "find_related|recursive-parameter", "find_related has no parameter `recursive` any more", fr.where)
+        return
+    g = build_cfg(fr)
+    loops = []
+    for st in walk_no_nested(fr.node):
+        if not isinstance(st, (ast.While, ast.For)):
+            continue
+        climbs = [a for a in ast.walk(st) if isinstance(a, (ast.Assign, ast.NamedExpr))
+                  and isinstance(a.value, ast.Attribute) and a.value.attr in ("parent", "_parent") and isinstance(a.value.value, ast.Name)
+                  and any(isinstance(t, ast.Name) and t.id == a.value.value.id for t in (a.targets if isinstance(a, ast.Assign) else [a.target]))]
+        if climbs:
+            loops.append(st)
+
+    def clf(leaf):
+        return "REC" if isinstance(leaf, ast.Name) and leaf.id == "recursive" else None
+    ok_edge = branch_edge_entails(clf, lambda a: a["REC"], ["REC"])
+    for st in loops:
+        heads = [n for n in g.nodes if n.ast is st and n.kind in ("branch", "for", "while")]
+        if not heads:
+            rep.fail(rule, "find_related|walk-head", "the loop head of the parent walk was not found in the flow graph", where(fr, st))
+            continue
+        hd = heads[0]
+        firsts = [m for k, m in hd.succ if k in ("true", "iter")]
+        again = any(reach_avoiding(g, f0, hd, ok_edge, skip_kinds=("exc",)) for f0 in firsts)
+        rep.check(not again, rule, "find_related: the parent walk repeats only when recursive", "every way back to the loop test knows `recursive`",
+                  "the parent walk can go on to the next ancestor on a path that never asked for `recursive`: a non recursive search "
+                  "returns ancestors beyond the direct parent", where(fr, st),
+                  witness="find_related(type=t, children=False, siblings=False, parents=True, recursive=False, findAll=True) below two nested Sections of type t")
+    rep.note("%s: %d climbing loops in find_related" % (rule, len(loops)))
